@@ -14,6 +14,8 @@ R = [
     # ---- parser -------------------------------------------------------------------------------------
     (r"include_logic", r"add_include", r"current_location", "invariant",
      "take_next sets current_location before parse_file calls add_include (Model/Includes.step: the file is taken before its includes are added)"),
+    (r"include_logic", r"add_included_from", r"current_file", "invariant",
+     "take_next sets current_file together with current_location before parse_source calls add_include"),
     (r"include_logic", r"include_library", r"file_name\(\)", "guarded",
      "file libraries are stored canonicalised with the extension `circom`, so the path has a final component"),
     (r"lang\.lalrpop", r"DECNUMBER", r"base10", "guarded", "the terminal's regex [0-9]+ only matches decimal digits"),
